@@ -133,4 +133,110 @@ theorem nodes_mem_of_child : ∀ (p : Path) (gs : List (String × Grp)) (n : Str
     · exact Or.inr (nodes_mem_of_child p r n gn h hx)
 end
 
+theorem lookup_of_namesOK : ∀ {gs : List (String × Grp)} {n : String} {g : Grp},
+    NamesOKG.NamesOKL gs → (n, g) ∈ gs → gs.lookup n = some g
+  | [], _, _, _, h => by simp at h
+  | (m, gm) :: r, n, g, hn, h => by
+    simp only [NamesOKG.NamesOKL] at hn
+    rcases List.mem_cons.mp h with h | h
+    · cases h; exact lookup_cons_eq
+    · have : n ≠ m := hn.2.1 (n, g) h
+      rw [lookup_cons_ne this]
+      exact lookup_of_namesOK hn.2.2 h
+
+theorem namesOK_of_mem : ∀ {gs : List (String × Grp)} {n : String} {g : Grp},
+    NamesOKG.NamesOKL gs → (n, g) ∈ gs → NamesOKG g
+  | [], _, _, _, h => by simp at h
+  | (m, gm) :: r, n, g, hn, h => by
+    simp only [NamesOKG.NamesOKL] at hn
+    rcases List.mem_cons.mp h with h | h
+    · cases h; exact hn.1
+    · exact namesOK_of_mem hn.2.2 h
+
+theorem nodesL_mem : ∀ {p : Path} {gs : List (String × Grp)} {x : Path × Grp},
+    x ∈ Grp.nodes.nodesL p gs → ∃ n gn, (n, gn) ∈ gs ∧ x ∈ Grp.nodes (p ++ [n]) gn
+  | _, [], _, h => by simp [Grp.nodes.nodesL] at h
+  | p, (m, gm) :: r, x, h => by
+    simp only [Grp.nodes.nodesL, List.mem_append] at h
+    rcases h with h | h
+    · exact ⟨m, gm, by simp, h⟩
+    · obtain ⟨n, gn, h1, h2⟩ := nodesL_mem h
+      exact ⟨n, gn, List.mem_cons_of_mem _ h1, h2⟩
+
+theorem lookupGrp_head {gs : List (String × Grp)} {rel : Path} {g : Grp} (h : lookupGrp gs rel = some g) :
+    ∃ n rest gn, rel = n :: rest ∧ gs.lookup n = some gn := by
+  cases rel with
+  | nil => simp [lookupGrp] at h
+  | cons n rest =>
+    simp only [lookupGrp] at h
+    cases hl : gs.lookup n with
+    | none => simp [hl] at h
+    | some gn => exact ⟨n, rest, gn, rfl, hl⟩
+
+theorem lookupGrp_cons_ne {m : String} {gm : Grp} {r : List (String × Grp)} {rel : Path} {g : Grp}
+    (h : lookupGrp r rel = some g) (hne : ∀ e ∈ r, e.1 ≠ m) : lookupGrp ((m, gm) :: r) rel = some g := by
+  obtain ⟨n, rest, gn, rfl, hl⟩ := lookupGrp_head h
+  have hnm : n ≠ m := hne (n, gn) (lookup_mem' hl)
+  simp only [lookupGrp] at h ⊢
+  rw [lookup_cons_ne hnm]
+  exact h
+
+mutual
+/-- a node is the group itself or is found below it by a non-empty relative path -/
+theorem lookup_of_nodes : ∀ (g0 : Grp) (p q : Path) (g : Grp), NamesOKG g0 → (q, g) ∈ Grp.nodes p g0 →
+    (q = p ∧ g = g0 ∧ g0.isArr = true) ∨ (∃ rel, rel ≠ [] ∧ q = p ++ rel ∧ lookupGrp g0.subs rel = some g ∧ g.isArr = true)
+  | .mk a pl subs, p, q, g, hn, h => by
+    simp only [Grp.nodes, List.mem_append] at h
+    rcases h with h | h
+    · left
+      split at h
+      · rename_i hpl
+        simp only [List.mem_singleton, Prod.mk.injEq] at h
+        exact ⟨h.1, h.2, by simp [Grp.isArr, hpl]⟩
+      · simp at h
+    · right
+      simp only [NamesOKG] at hn
+      exact lookup_of_nodesL subs p q g hn h
+theorem lookup_of_nodesL : ∀ (gs : List (String × Grp)) (p q : Path) (g : Grp), NamesOKG.NamesOKL gs →
+    (q, g) ∈ Grp.nodes.nodesL p gs →
+    ∃ rel, rel ≠ [] ∧ q = p ++ rel ∧ lookupGrp gs rel = some g ∧ g.isArr = true
+  | [], _, _, _, _, h => by simp [Grp.nodes.nodesL] at h
+  | (m, gm) :: r, p, q, g, hn, h => by
+    simp only [NamesOKG.NamesOKL] at hn
+    simp only [Grp.nodes.nodesL, List.mem_append] at h
+    rcases h with h | h
+    · rcases lookup_of_nodes gm (p ++ [m]) q g hn.1 h with ⟨h1, h2, h3⟩ | ⟨rel, h1, h2, h3, h4⟩
+      · refine ⟨[m], by simp, h1, ?_, h2 ▸ h3⟩
+        rw [lookupGrp_single, lookup_cons_eq, h2]
+      · refine ⟨m :: rel, by simp, by simp [h2, List.append_assoc], ?_, h4⟩
+        cases rel with
+        | nil => exact absurd rfl h1
+        | cons k rest => rw [lookupGrp_cons, lookup_cons_eq]; simpa using h3
+    · obtain ⟨rel, h1, h2, h3, h4⟩ := lookup_of_nodesL r p q g hn.2.2 h
+      exact ⟨rel, h1, h2, lookupGrp_cons_ne h3 hn.2.1, h4⟩
+end
+
+theorem nodup_map_inj {α β} {f : α → β} : ∀ {l : List α}, (l.map f).Nodup → ∀ {a b : α}, a ∈ l → b ∈ l → f a = f b → a = b
+  | [], _, _, _, ha, _, _ => by simp at ha
+  | x :: xs, hn, a, b, ha, hb, hf => by
+    simp only [List.map_cons, List.nodup_cons, List.mem_map, not_exists, not_and] at hn
+    rcases List.mem_cons.mp ha with ha | ha
+    · rcases List.mem_cons.mp hb with hb | hb
+      · rw [ha, hb]
+      · rw [ha] at hf; exact absurd hf.symm (hn.1 b hb)
+    · rcases List.mem_cons.mp hb with hb | hb
+      · rw [hb] at hf; exact absurd hf (hn.1 a ha)
+      · exact nodup_map_inj hn.2 ha hb hf
+
+/-- with unique names and unique sources, the source determines the path -/
+theorem path_of_src {gs : List (String × Grp)} (hn : NamesOKG.NamesOKL gs)
+    (hs : ((Grp.nodes.nodesL [] gs).map (fun x => x.2.src)).Nodup)
+    {q1 q2 : Path} {g1 g2 : Grp} (h1 : lookupGrp gs q1 = some g1) (h2 : lookupGrp gs q2 = some g2)
+    (a1 : g1.isArr = true) (a2 : g2.isArr = true) (hsrc : g1.src = g2.src) : q1 = q2 := by
+  have m1 := nodes_of_lookup q1 gs [] g1 h1 a1
+  have m2 := nodes_of_lookup q2 gs [] g2 h2 a2
+  simp only [List.nil_append] at m1 m2
+  have := nodup_map_inj hs m1 m2 hsrc
+  exact congrArg Prod.fst this
+
 end Midgard.H5
